@@ -4,6 +4,7 @@ JSON-lines driver of the validator engine: one request per line on stdin, one re
   {"op":"repair","fix":b,"schema":S|null,"doc":D,"env":E}          -> {"doc":D,"log":[[rule,before,after,tier]...]}
   {"op":"validate","strict":b,"schemas":[S...]|null,"doc":D,"env":E,"ext":[[id,PV,code|null]...],"meta":[[code,path]...],"fm":[[code,path]...]}
                                                                       -> {"errs":[[code,path]...]}
+  {"op":"repair_value","value":V,"field":F|null|"absent","fix":b,"env":E}   -> {"value":V,"log":[...]}
   {"op":"numeral","s":str,"env":E}                                  -> {"strip":str,"int":dec|null,"float":"dec"|"inf"|"-inf"|"nan"|null}
   {"op":"content_eq","a":D,"b":D}                                   -> {"eq":bool}      (content a == content b, via the JSON of the erased documents)
   {"op":"tool","fix":b,...}                                         see `handleTool`
@@ -226,6 +227,19 @@ def handleRepair (j : Json) : R Json := do
   let (d', log) := Repair.repair env d fix sch
   pure (Json.mkObj [("doc", docToJson d'), ("log", Json.arr (log.map entryToJson).toArray)])
 
+/-- `{"op":"repair_value","value":V,"field":F|null|"absent","fix":b,"env":E}` -> `{"value":V,"log":[...]}`
+(`"absent"` = `field_def is None`). -/
+def handleRepairValue (j : Json) : R Json := do
+  let env ← envOfJson (fldD j "env" (Json.mkObj []))
+  let v ← valOfJson (← fld j "value")
+  let fix ← (← fld j "fix").getBool?
+  let fdj := fldD j "field" (Json.str "absent")
+  let fd : Option FieldDef ← match fdj with
+    | .str _ => pure none
+    | _ => do pure (some (← fieldDefOfJson fdj))
+  let (v', log) := Repair.repairValue env v fd fix
+  pure (Json.mkObj [("value", valToJson v'), ("log", Json.arr (log.map entryToJson).toArray)])
+
 def handleValidate (j : Json) : R Json := do
   let env ← envOfJson (fldD j "env" (Json.mkObj []))
   let d ← docOfJson (← fld j "doc")
@@ -291,6 +305,7 @@ def handle (j : Json) : Json :=
   let r : R Json := do
     match ← j.getObjValAs? String "op" with
     | "repair" => handleRepair j
+    | "repair_value" => handleRepairValue j
     | "validate" => handleValidate j
     | "numeral" => handleNumeral j
     | "content_eq" => handleContentEq j
